@@ -179,12 +179,17 @@ func panicFingerprint(log string) string {
 		ln = strings.TrimSpace(ln)
 		if strings.HasPrefix(ln, "github.com/noble-assets/orbiter/v2") && !strings.Contains(ln, "/simapp") {
 			f := ln
-			if i := strings.Index(f, "("); i >= 0 {
-				f = f[:i]
+			if i := strings.LastIndex(f, "("); i >= 0 {
+				f = f[:i] // drop the argument list, keep the receiver type and the method
 			}
 			frame = strings.TrimPrefix(f, "github.com/noble-assets/orbiter/v2/")
 			break
 		}
+	}
+	if strings.Contains(log, "is not a module account") {
+		// the address of a module account was taken by a plain account (coins sent there before the module's first
+		// use): the fingerprint names the cause instead of the address
+		return "module-address-holds-a-plain-account @ " + frame
 	}
 	return first + " @ " + frame
 }
